@@ -24,7 +24,7 @@ EXTENDS Naturals, Sequences, FiniteSets, SequencesExt, TLC
 
 LoadFails == {"missing", "malformed", "badlookup", "scalar"}
 GenFails  == {"nonobject", "nonstrkey"}
-OkKinds   == {"list", "object", "lookup"}
+OkKinds   == {"list", "object", "lookup", "glob"}     \* glob: a pattern matching two files; their order is unspecified
 
 \* the order in which the code reads the arguments: -m arguments first, then -l arguments
 LoadOrder(args) == SelectSeq(args, LAMBDA a : a.flag = "m") \o SelectSeq(args, LAMBDA a : a.flag = "l")
@@ -34,6 +34,19 @@ Concat(ss) == IF ss = <<>> THEN <<>> ELSE Head(ss) \o Concat(Tail(ss))
 Assemble(args, model) ==
   LET mine == SelectSeq(LoadOrder(args), LAMBDA a : a.model = model) IN Concat([i \in DOMAIN mine |-> mine[i].ids])
 Models(args) == {args[i].model : i \in DOMAIN args}
+\* the same, as chunks: what each argument of the model contributes and whether the order inside the chunk is specified
+Chunks(args, model) ==
+  LET mine == SelectSeq(LoadOrder(args), LAMBDA a : a.model = model)
+  IN [i \in DOMAIN mine |-> [ids |-> mine[i].ids, ordered |-> mine[i].kind # "glob"]]
+\* obs is the concatenation of the chunks, each chunk's part being its ids (in order, or in any order for a glob)
+RECURSIVE MatchChunks(_, _)
+MatchChunks(obs, chunks) ==
+  IF chunks = <<>> THEN obs = <<>>
+  ELSE LET c == Head(chunks) n == Len(c.ids) IN
+       /\ Len(obs) >= n
+       /\ LET part == SubSeq(obs, 1, n) IN
+          (IF c.ordered THEN part = c.ids ELSE ToSet(part) = ToSet(c.ids) /\ Cardinality(ToSet(part)) = n)
+       /\ MatchChunks(SubSeq(obs, n + 1, Len(obs)), Tail(chunks))
 
 \* model names in the order the code meets them (dict insertion order of models_data)
 RECURSIVE DedupM(_, _)
@@ -100,6 +113,6 @@ Complete == (pc = "exit" /\ status = 0) => IF plan.out = "none" THEN printed = "
 OnlyWriteAfterRender == [][out' # out => rendered]_vars
 \* C16
 Assembled == pc \in {"validate", "setargs", "generate", "render", "emit", "write"} \/ (pc = "exit" /\ status = 0)
-             => \A m \in Models(plan.args) : loaded[m] = Assemble(plan.args, m)
+             => \A m \in Models(plan.args) : MatchChunks(loaded[m], Chunks(plan.args, m))
 Terminates == <>(pc = "exit")
 =============================================================================
